@@ -4,6 +4,7 @@ import Mouette.Lemmas.DualBridge
 import Mouette.Lemmas.CuttingForest
 import Mathlib.Data.List.Perm.Basic
 import Mathlib.Data.List.Nodup
+import Mathlib.Tactic.NormNum
 import Mouette.Props.C16
 import Mouette.Props.C09
 /-!
@@ -203,6 +204,26 @@ theorem euler_characteristic_of_dual_tree_source_partial {nV : Nat} {F : List Fa
     (o.pos.length : Int) - (edgeCount o F.length : Int) + (F.length : Int) = 1 := by
   obtain ⟨n1, n2⟩ := uncut_pairs_distinct_source sp interior cut nd valid
   exact Props.C16.euler_characteristic_of_dual_tree_partial2 tri h ps hps n1 n2 tree_size one_class sep
+
+/-! ## round 7: `__init__` — the singular vertices the pruning sees -/
+
+/-- `self.singularities` holds every item of the constructor's argument for every kind of iterable (list kept by reference,
+anything else iterated ONCE into a list); `self.singu_set` has the same members when the argument can be iterated again -/
+theorem init_singularities_source (isList : Bool) (arg : Iter) :
+    (C16.initSingularities isList arg).1 = arg.items ∧
+    (arg.oneShot = false → ∀ x, x ∈ (C16.initSingularities isList arg).2 ↔ x ∈ arg.items) :=
+  ⟨init_singularities isList arg, fun h x => init_singu_set_reiterable isList arg h x⟩
+
+/-- the container `_prune_edge_tree` tests vertices against (translated: `pruneSingOf`) has exactly the argument's items as
+members, also for a ONE-SHOT iterable (generator expression, iterator, `map` object): the singular vertices the pruning stops
+at do not depend on the container type -/
+theorem prune_reads_singularities_source (isList : Bool) (arg : Iter) (hl : isList = true → arg.oneShot = false) (x : Nat) :
+    x ∈ C16.pruneSingOf (C16.initSingularities isList arg) ↔ x ∈ arg.items :=
+  prune_reads_singularities isList arg hl x
+
+/-- a generator with items 3, 5 and a re-iterable with a repeated item: the list is complete in both cases -/
+example : (C16.initSingularities false ⟨[3, 5], true⟩).1 = [3, 5] ∧ (C16.initSingularities false ⟨[3, 5, 3], false⟩).1 = [3, 5, 3] ∧
+    (C16.initSingularities false ⟨[3, 5, 3], false⟩).2 = [3, 5] := by decide
 
 /-! ## round 5: the find loop, the renumbering loop and `order_verts` of `_build_mesh_with_cuts`, as written -/
 
@@ -561,6 +582,106 @@ theorem euler_characteristic_of_source_dual_tree_partial {nV : Nat} {F : List Fa
 
 end euler
 
+
+/-! ### a concrete instance of `euler_characteristic_of_source_dual_tree_partial` (round 7, non-vacuity)
+
+Two triangles `[0,1,2]`, `[0,2,3]` sharing the edge 2 = (0,2); the translated dual Dijkstra (with the executable heap `PQ.pop`)
+crosses that edge; every hypothesis of the theorem is established for this input and χ = 1 follows. -/
+
+section instance2
+open Mouette.PQ Mouette.Dijkstra Mouette.DualSrc
+
+private def F2 : List Face := [[0, 1, 2], [0, 2, 3]]
+private def E2 : List (Nat × Nat) := [(0, 1), (1, 2), (0, 2), (2, 3), (0, 3)]
+private def f2e2 : Nat → List Nat := fun g => if g = 0 then [0, 1, 2] else if g = 1 then [2, 3, 4] else []
+private def opp2 : Nat → Nat → Nat → Option Nat := fun a b g =>
+  if a = 0 ∧ b = 2 ∧ g = 0 then some 1 else if a = 0 ∧ b = 2 ∧ g = 1 then some 0 else none
+
+private theorem simple2 : Simple E2 := by
+  constructor
+  · intro e a b h
+    have : e < 5 := (List.getElem?_eq_some_iff.mp h).1
+    match e, this with
+    | 0, _ | 1, _ | 2, _ | 3, _ | 4, _ => simp [E2] at h <;> omega
+  · intro e e' a b h h'
+    have he : e < 5 := (List.getElem?_eq_some_iff.mp h).1
+    have he' : e' < 5 := by rcases h' with h' | h' <;> exact (List.getElem?_eq_some_iff.mp h').1
+    match e, he, e', he' with
+    | 0, _, 0, _ | 1, _, 1, _ | 2, _, 2, _ | 3, _, 3, _ | 4, _, 4, _ => rfl
+    | 0, _, 1, _ | 0, _, 2, _ | 0, _, 3, _ | 0, _, 4, _ | 1, _, 0, _ | 1, _, 2, _ | 1, _, 3, _ | 1, _, 4, _
+    | 2, _, 0, _ | 2, _, 1, _ | 2, _, 3, _ | 2, _, 4, _ | 3, _, 0, _ | 3, _, 1, _ | 3, _, 2, _ | 3, _, 4, _
+    | 4, _, 0, _ | 4, _, 1, _ | 4, _, 2, _ | 4, _, 3, _ => simp [E2] at h h' <;> omega
+
+private theorem link2 : LinkOK F2 E2 [2] f2e2 (fun _ => false) opp2 := by
+  intro e g f ⟨he, _, ho⟩
+  have hg : g = 0 ∨ g = 1 := by
+    by_cases h0 : g = 0
+    · exact Or.inl h0
+    · by_cases h1 : g = 1
+      · exact Or.inr h1
+      · simp [f2e2, h0, h1] at he
+  have he2 : e = 2 := by
+    rcases hg with rfl | rfl
+    · simp [f2e2] at he
+      rcases he with rfl | rfl | rfl
+      · simp [opp2, edgeEnds, E2] at ho
+      · simp [opp2, edgeEnds, E2] at ho
+      · rfl
+    · simp [f2e2] at he
+      rcases he with rfl | rfl | rfl
+      · rfl
+      · simp [opp2, edgeEnds, E2] at ho
+      · simp [opp2, edgeEnds, E2] at ho
+  subst he2
+  refine ⟨by simp [E2], by simp, (1, 0), ⟨0, 1, 2, 0, by decide +kernel, by decide +kernel⟩, ?_⟩
+  rcases hg with rfl | rfl
+  · simp [opp2, edgeEnds, E2] at ho; exact Or.inr ⟨ho.symm ▸ rfl, rfl⟩
+  · simp [opp2, edgeEnds, E2] at ho; exact Or.inl ⟨rfl, ho.symm ▸ rfl⟩
+
+example : ∃ o ps, build 4 F2 (uncutPairs E2 [2] (cutEdges0 E2.length
+      (C16D.buildDualTreeNoFeatures PQ.pop (fuel (dualAdj E2 f2e2 (fun _ => false) opp2 (fun _ _ => 1)) F2.length) F2.length E2
+        f2e2 (fun _ => false) opp2 (fun _ _ => 1)).2)) = .ok o ∧
+    effCount (ufRange (3 * F2.length)) ps = ps.length ∧
+    (o.pos.length : Int) - (edgeCount o F2.length : Int) + (F2.length : Int) = 1 := by
+  have hun : uncutPairs E2 [2] (cutEdges0 E2.length
+      (C16D.buildDualTreeNoFeatures PQ.pop (fuel (dualAdj E2 f2e2 (fun _ => false) opp2 (fun _ _ => 1)) F2.length) F2.length E2
+        f2e2 (fun _ => false) opp2 (fun _ _ => 1)).2) = [(0, 2)] := by decide +kernel
+  cases hb : build 4 F2 [(0, 2)] with
+  | error e =>
+    have hs : (build 4 F2 [(0, 2)]).toOption.isSome = true := by decide +kernel
+    rw [hb] at hs
+    simp [Except.toOption] at hs
+  | ok o =>
+    have hps : unionPairs (halfEdges F2) (cornerFaces F2) [(0, 2)] = some [(3, 0), (4, 2)] := by decide +kernel
+    have hyp : (build 4 F2 [(0, 2)]).toOption.map (fun o => edgeHyp o 2 (twins [(3, 0), (4, 2)])) = some true := by
+      decide +kernel
+    rw [hb] at hyp
+    have hyp' : edgeHyp o 2 (twins [(3, 0), (4, 2)]) = true := by simpa [Except.toOption] using hyp
+    obtain ⟨_, _, sep⟩ := edgeHyp_sound hyp'
+    have tri : AllTri F2 := by intro f hf; simp [F2] at hf; rcases hf with rfl | rfl <;> rfl
+    have := euler_characteristic_of_source_dual_tree_partial (nV := 4) (F := F2) (E := E2) (interior := [2]) (o := o)
+      f2e2 (fun _ => false) opp2 (fun _ _ => 1) (pop := PQ.pop) simple2 tri Mouette.Dijkstra.popOK_firstMin (by decide)
+      (fun _ _ => by norm_num) (by
+        intro a b g f h
+        simp only [opp2] at h
+        split at h
+        · injection h with h; subst h; decide
+        · split at h
+          · injection h with h; subst h; decide
+          · cases h) link2
+      (by
+        intro f hf
+        have : f = 0 ∨ f = 1 := by simp [F2] at hf; omega
+        rcases this with rfl | rfl
+        · exact ⟨[0], 0, PathW.single 0⟩
+        · exact ⟨[0, 1], 1 + 0, PathW.cons (by decide +kernel) (PathW.single 1)⟩)
+      (by simp) (by intro e he; simp at he; subst he; simp [E2])
+    simp only [] at this
+    rw [hun] at this
+    obtain ⟨_, h2, h3⟩ := this hb [(3, 0), (4, 2)] hps sep
+    exact ⟨o, [(3, 0), (4, 2)], by rw [hun]; exact hb, h2, h3⟩
+
+end instance2
 
 /-! ## non-vacuity: the extracted definitions, run -/
 
